@@ -331,12 +331,29 @@ where
                         } else if let Ok(x) = Constants::from_str(&temp) {
                             tokens.push(Token::Constant(x));
                         } else {
+                            // A run of letters is a product of one-letter names; a letter
+                            // that names a constant (`e`) is that constant here as well
                             for char in temp.chars() {
-                                tokens.push(Token::Variable(char.to_string()));
+                                let name = char.to_string();
+                                if let Ok(x) = Constants::from_str(&name) {
+                                    tokens.push(Token::Constant(x));
+                                } else {
+                                    tokens.push(Token::Variable(name));
+                                }
                             }
                         }
                     }
                 }
+            }
+
+            // The symbols Display prints for the named constants
+            'π' | 'τ' | 'ϕ' => {
+                tokens.push(Token::Constant(match ch {
+                    'π' => Constants::Pi,
+                    'τ' => Constants::Tau,
+                    _ => Constants::Phi,
+                }));
+                chars.next();
             }
 
             '(' => {
